@@ -650,6 +650,194 @@ Proof.
   apply IH; [apply GI_step | apply progs_step]; assumption.
 Qed.
 
+(* ------------------------------------------------------------------ *)
+(* (d) linearisation: the sequential replay of the history variable [lin] on
+   the faithful allocator model.  In an intermediate state the replay is
+   ahead of the shared state by the indices claimed but not yet raised. *)
+
+Lemma arun_snoc f os : forall a o,
+  fst (arun f a (os ++ [o])) = fst (astep f (fst (arun f a os)) o).
+Proof.
+  induction os as [|o' os IH]; intros a o.
+  - cbn [app]. rewrite arun_cons. cbn [arun fst]. reflexivity.
+  - cbn [app]. rewrite !arun_cons. cbn [fst]. apply IH.
+Qed.
+
+Lemma alloc_atomic_pop b id : clen b <> 0 -> pv_get (cache b) (clen b - 1) = Some id ->
+  a_alloc_atomic b = (add_raised (set_clen b (clen b - 1)) id, (id, join_gen b id)).
+Proof.
+  intros Hz Hg. unfold a_alloc_atomic. destruct (N.eqb_spec (clen b) 0); [contradiction|]. rewrite Hg. reflexivity.
+Qed.
+
+Lemma alloc_atomic_fresh b : clen b = 0 ->
+  a_alloc_atomic b = (add_raised (set_max b (max_id b + 1)) (max_id b), (max_id b, join_gen b (max_id b))).
+Proof.
+  intros Hz. unfold a_alloc_atomic. destruct (N.eqb_spec (clen b) 0); [|contradiction]. reflexivity.
+Qed.
+
+Lemma inl_app i l1 l2 : inl i (l1 ++ l2) = inl i l1 || inl i l2.
+Proof.
+  induction l1 as [|x l1 IH]; cbn [app]; [reflexivity|]. rewrite !inl_cons, IH.
+  destruct (N.eq_dec x i); reflexivity.
+Qed.
+
+Definition infl_of (p : pc) : list N :=
+  match p with
+  | PRead x => match pv_get (cache a0) (x - 1) with Some id => [id] | None => [] end
+  | PRaise id => [id]
+  | _ => []
+  end.
+Definition infl (t : thread) : list N := infl_of (tpc t).
+Definition inflight (c : config) : list N := flat_map infl (threads c).
+
+Definition replay (c : config) : astate := fst (arun true a0 (lin_ops c)).
+
+(* [a]: shared state, [b]: replay, [F]: indices in flight *)
+Record LIr (a b : astate) (F : list N) : Prop := {
+  li_gens : gens b = gens a0;
+  li_alive : alive b = alive a0;
+  li_cache : cache b = cache a0;
+  li_stuck : a_stuck b = false;
+  li_clen : clen b = clen a;
+  li_max : max_id b = max_id a;
+  li_killed : forall i, NS.mem i (killed b) = NS.mem i (killed a);
+  li_raised : forall i, NS.mem i (raised b) = NS.mem i (raised a) || inl i F }.
+
+Definition LI (c : config) : Prop := LIr (sh c) (replay c) (inflight c).
+
+Lemma LIr_ale a b F : ale a0 a -> LIr a b F -> ale a0 b.
+Proof.
+  intros Ha [L1 L2 L3 L4 L5 L6 L7 L8]. split; auto.
+  - rewrite L5. apply Ha.
+  - rewrite L6. apply Ha.
+  - intros i Hi. rewrite L8, (le_raised _ _ Ha i Hi). reflexivity.
+  - intros i Hi. rewrite L7. apply (le_killed _ _ Ha i Hi).
+Qed.
+
+(* the replay and the shared state agree on the aliveness of every handle a
+   thread may use *)
+Lemma alive_transfer a b F e : ale a0 a -> LIr a b F -> hgood a e -> a_is_alive b e = a_is_alive a e.
+Proof.
+  intros Ha HL [G1 [G2 G3]]. pose proof (LIr_ale _ _ _ Ha HL) as Hb.
+  destruct G3 as [G3|[G3 G4]].
+  - rewrite (stable_alive a0 b e Hb G2 G3), (stable_alive a0 a e Ha G2 G3). reflexivity.
+  - rewrite (own_alive a e Ha G3 G4). apply own_alive; [assumption| |assumption].
+    rewrite (li_raised _ _ _ HL). apply orb_true_intro. left. exact G3.
+Qed.
+
+Lemma infl_after_len p : infl_of (after_len p) = [].
+Proof. unfold after_len. destruct (N.eqb p 0); reflexivity. Qed.
+
+Lemma LIr_same_infl a b F1 F2 p p' : infl_of p' = infl_of p ->
+  LIr a b (F1 ++ infl_of p ++ F2) -> LIr a b (F1 ++ infl_of p' ++ F2).
+Proof. intros ->. auto. Qed.
+
+Lemma tstep_lin a q t a' q' t' ev b F1 F2 : G a -> TI a t -> tstep I a q t = (a', q', t', ev) ->
+  LIr a b (F1 ++ infl t ++ F2) ->
+  LIr a' (match ev with Some o => fst (astep true b o) | None => b end) (F1 ++ infl t' ++ F2).
+Proof.
+  intros [Ha Hst] Ht H HL. unfold infl in *.
+  tstep_cases H; unf;
+    try (eapply LIr_same_infl; [|exact HL]; rewrite ?infl_after_len; rewrite ?Epc; reflexivity).
+  - (* delete, Err: the replay finds the handle dead as well *)
+    pose proof (resolve_good _ _ _ _ Ha Ht Eres) as Hg.
+    cbn [astep]. unfold a_kill_atomic. rewrite (alive_transfer _ _ _ _ Ha HL Hg), Eal. cbn [fst]. exact HL.
+  - (* CAS on len succeeds *)
+    pose proof (ti_dec _ _ Ht _ Epc) as Hp. destruct (i0_get H0 (clen a) Hp) as [id [Hg Hlt]].
+    cbn [astep infl_of]. rewrite Hg.
+    rewrite (alloc_atomic_pop b id); [| rewrite (li_clen _ _ _ HL); lia
+                                       | rewrite (li_clen _ _ _ HL), (li_cache _ _ _ HL); assumption].
+    cbn [fst]. destruct HL as [L1 L2 L3 L4 L5 L6 L7 L8]. split; unf; auto; try congruence.
+    intros i. rewrite mem_add, L8, !inl_app, inl_cons. cbn [infl_of app]. unfold inl at 2. cbn.
+    destruct (N.eq_dec id i); rewrite ?orb_true_r, ?orb_false_r; reflexivity.
+  - (* cache read: the index in flight is the one at the claimed position *)
+    cbn [infl_of] in *. rewrite <- (le_cache _ _ Ha), Eget in HL. assumption.
+  - (* out of bounds: impossible *)
+    exfalso. pose proof (ti_read _ _ Ht _ Epc) as Hx. destruct (i0_get H0 x) as [id [Hg _]]; [lia|].
+    rewrite (le_cache _ _ Ha) in Eget. congruence.
+  - (* CAS on max_id succeeds *)
+    pose proof (ti_incc _ _ Ht _ Epc) as Hz.
+    cbn [astep infl_of]. rewrite (alloc_atomic_fresh b) by (rewrite (li_clen _ _ _ HL); assumption).
+    cbn [fst]. destruct HL as [L1 L2 L3 L4 L5 L6 L7 L8]. split; unf; auto; try congruence.
+    intros i. rewrite mem_add, L8, !inl_app, inl_cons, L6. cbn [infl_of app]. unfold inl at 2. cbn.
+    destruct (N.eq_dec (max_id a) i); rewrite ?orb_true_r, ?orb_false_r; reflexivity.
+  - (* raised.add_atomic: the index is no longer in flight *)
+    cbn [infl_of] in *. destruct HL as [L1 L2 L3 L4 L5 L6 L7 L8]. split; unf; auto.
+    intros i. rewrite mem_add, L8, !inl_app, inl_cons. cbn [app]. unfold inl at 2. cbn.
+    destruct (N.eq_dec id i); rewrite ?orb_true_r, ?orb_false_r; reflexivity.
+  - (* killed.add_atomic: the replay finds the handle alive as well *)
+    destruct (ti_k _ _ Ht _ _ Epc) as [_ [Hg Hal]].
+    cbn [astep]. unfold a_kill_atomic. rewrite (alive_transfer _ _ _ _ Ha HL Hg), Hal. cbn [fst infl_of] in *.
+    destruct HL as [L1 L2 L3 L4 L5 L6 L7 L8]. split; unf; auto.
+    intros i. rewrite !mem_add, L7. reflexivity.
+Qed.
+
+Lemma LI_step c n : GI c -> LI c -> LI (step_thread c n).
+Proof.
+  intros [Hg Ht Hi] HL.
+  destruct (step_thread_cases c n) as [[-> _]|[l1 [t [l2 [a' [q' [t' [ev [Hl [Hn [Hs ->]]]]]]]]]]]; [assumption|].
+  unfold LI, replay, inflight, lin_ops in *. norm. rewrite Hl in *. rewrite Hi in Hs. clear Hi.
+  rewrite flat_map_app in *. cbn [flat_map] in *.
+  apply Forall_app in Ht. destruct Ht as [F1 F2]. inversion F2 as [|? ? Tt F3]; subst.
+  pose proof (tstep_lin _ _ _ _ _ _ _ _ _ _ Hg Tt Hs HL) as X.
+  destruct ev as [o|]; [|assumption].
+  rewrite map_app. cbn [map snd]. rewrite arun_snoc. assumption.
+Qed.
+
+Lemma LI_new progs : LI (c_new a0 I progs).
+Proof.
+  unfold LI, replay, inflight, lin_ops, c_new. norm. cbn [map arun fst].
+  assert (flat_map infl (map t_new progs) = []) as ->.
+  { induction progs as [|p ps IH]; cbn; auto. }
+  split; auto. - apply (i0_stuck H0). - intros i. rewrite orb_false_r. reflexivity.
+Qed.
+
+Lemma LI_run s : forall c, GI c -> LI c -> LI (run c s).
+Proof.
+  induction s as [|n s IH]; intros c Hc HL; cbn [run]; [assumption|].
+  apply IH; [apply GI_step | apply LI_step]; assumption.
+Qed.
+
+(* equality of allocator states up to the representation of the two sets
+   written during the phase *)
+Record aeq (a b : astate) : Prop := {
+  eq_gens : gens a = gens b;
+  eq_alive : alive a = alive b;
+  eq_raised : forall i, NS.mem i (raised a) = NS.mem i (raised b);
+  eq_killed : forall i, NS.mem i (killed a) = NS.mem i (killed b);
+  eq_cache : cache a = cache b;
+  eq_clen : clen a = clen b;
+  eq_max : max_id a = max_id b;
+  eq_stuck : a_stuck a = a_stuck b }.
+
+Lemma finished_no_infl c : all_finished c = true -> inflight c = [].
+Proof.
+  unfold all_finished, inflight. intros H. rewrite forallb_forall in H.
+  induction (threads c) as [|t ts IH]; [reflexivity|]. cbn [flat_map].
+  rewrite IH by (intros x Hx; apply H; right; assumption).
+  assert (finished t = true) as Hf by (apply H; left; reflexivity).
+  unfold finished in Hf. unfold infl. destruct (tpc t); try discriminate. reflexivity.
+Qed.
+
+(* (d) when every thread has finished, the shared allocator state is the
+   state the faithful sequential model reaches by running the creations,
+   deletion requests (and is_alive queries) in the order in which they
+   linearised *)
+Theorem final_state_sequential progs s :
+  let c := run (c_new a0 I progs) s in
+  all_finished c = true -> aeq (sh c) (fst (arun true a0 (lin_ops c))).
+Proof.
+  intros c Hfin.
+  assert (GI c) as [[Ha Hst] _ _] by (apply GI_run, GI_new).
+  assert (LI c) as HL by (apply LI_run; [apply GI_new | apply LI_new]).
+  unfold LI in HL. rewrite (finished_no_infl c Hfin) in HL. fold (replay c).
+  destruct HL as [L1 L2 L3 L4 L5 L6 L7 L8]. split; try congruence.
+  - rewrite L1. apply Ha.
+  - rewrite L2. apply Ha.
+  - intros i. rewrite L8. unfold inl. cbn. rewrite orb_false_r. reflexivity.
+  - rewrite L3. apply Ha.
+Qed.
+
 End Phase.
 
 (* ------------------------------------------------------------------ *)
